@@ -28,6 +28,7 @@ type SourceMaps struct {
 	Root    string             `json:"root"`              // rootLocation
 	Entries map[int][]LexEntry `json:"entries,omitempty"` // node index -> entries, in order
 	Files   []FileLoc          `json:"files,omitempty"`   // additional locations
+	NoBase  bool               `json:"no_base,omitempty"` // omit the BaseUnitSourceInformation node (the uri is then unspecified; only differential checks use this)
 }
 
 // FileLoc assigns nodes to another source file.
@@ -96,6 +97,9 @@ func (s *SourceMaps) Attach(g *Graph) *Graph {
 			out.Nodes = append(out.Nodes, ln)
 			out.Nodes[smi].AddVal(SM+"lexical", NV(li))
 		}
+	}
+	if s.NoBase {
+		return out
 	}
 	bi := len(out.Nodes)
 	bn := &Node{ID: "amf://id/BaseUnitSourceInformation", Types: []string{DOC + "BaseUnitSourceInformation"}, Props: map[string][]Val{}}
